@@ -111,45 +111,74 @@ def rule_table(ctx):
     fn = find_fn(BN, "find_bn254_specific_circuits")
     if fn is None:
         return ctx.missing(R, "find_bn254_specific_circuits")
-    # the match on the curve
-    ms = [m for m in walk(fn["body"]) if m["k"] == "Match" and "curve" in render(m["scrut"])]
-    if len(ms) != 1:
-        return ctx.missing(R, "match-on-curve", "expected exactly one match on the configured curve, found %d" % len(ms))
-    m = ms[0]
-    arms = {}
-    for a in m["arms"]:
-        for v in curve_variant(a["pat"]):
-            arms.setdefault(v, []).append(a)
-    src_tables = {}
+    # per curve: which table constants are used on the ways through the function that are possible for that curve
+    # (a `match` on the curve, an if/else chain on it and early returns are all read the same way)
+    from pathcond import enumerate_paths
+
+    matches_on_curve = [m for m in walk(fn["body"]) if m["k"] == "Match" and "curve" in render(m["scrut"])]
+
+    def arm_feasible(scrut, pat, curve):
+        vs_ = curve_variant(pat)
+        if curve in vs_:
+            return True
+        if "_" in vs_ or (pat["k"] == "PIdent" and pat["name"][:1].islower()):
+            # catch-all: possible only if no other arm of that match names the curve
+            for m in matches_on_curve:
+                if m["scrut"] is scrut:
+                    named = [v for a in m["arms"] for v in curve_variant(a["pat"])]
+                    return curve not in named
+            return True
+        return False
+
+    def feasible(f, curve):
+        if f[0] == "arm" and "curve" in render(f[1]):
+            return arm_feasible(f[1], f[2], curve)
+        if f[0] == "iflet" and "curve" in render(f[2]):
+            vs_ = curve_variant(f[1])
+            if all(v in ("Goldilocks", "Bls12_381", "Bn254") for v in vs_) and vs_:
+                return (curve in vs_) == f[3]
+            return True
+        if f[0] == "if" and f[1]["k"] == "Binary" and f[1]["op"] == "==" and "curve" in render(f[1]):
+            sides = [render(strip(f[1]["l"])), render(strip(f[1]["r"]))]
+            named = [last(x) for x in sides if re.fullmatch(r"(?:\w+::)*Curve::\w+", x)]
+            if len(named) == 1:
+                return (named[0] == curve) == f[2]
+        if f[0] == "notall":
+            # not (a && b ..): infeasible only if every conjunct certainly holds
+            known = [feasible(g, curve) and not feasible((g[0], g[1], not g[2]) if g[0] == "if" else g, curve) for g in f[1] if g[0] == "if"]
+            if known and len(known) == len(f[1]) and all(known):
+                return False
+        return True
+
+    n_paths = 0
     for curve in ("Goldilocks", "Bls12_381", "Bn254"):
-        cand = arms.get(curve) or arms.get("_")
-        if not cand:
-            ctx.missing(R, "arm:" + curve)
-            continue
-        a = cand[0]
-        body = strip(a["body"])
+        consts, reach_visitor, early_empty = set(), False, True
+        site_ = site(BN, fn)
+        for conds, atoms, ex in enumerate_paths(fn["body"]):
+            if not all(feasible(f, curve) for f in conds):
+                continue
+            n_paths += 1
+            used = set()
+            for a_ in atoms:
+                for n in walk(a_):
+                    if n["k"] == "Path" and re.fullmatch(r"[A-Z][A-Z0-9_]+", n["path"]) and const_array(BN, n["path"]) is not None:
+                        used.add(n["path"])
+            visits = any(c["k"] == "Call" and c["func"]["k"] == "Path" and last(c["func"]["path"]) == "visit_statement" for a_ in atoms for c in walk(a_))
+            if ex == "return" and not visits:
+                r_ = atoms[-1] if atoms else None
+                if r_ is None or r_.get("k") != "Return" or render(strip(r_["e"])) not in ("ReportCollection::new()", "Vec::new()", "vec!()", "Default::default()"):
+                    early_empty = False
+                continue
+            reach_visitor = reach_visitor or visits
+            consts |= used
         if curve == "Bn254":
-            txt = render(body)
-            empty = False
-            rets = [n for n in walk(a["body"]) if n["k"] == "Return"]
-            if rets and all(render(strip(r["e"])) in ("ReportCollection::new()", "Vec::new()", "vec!()", "Default::default()") for r in rets):
-                empty = True
-            if txt in ("HashSet::new()", "HashSet::default()"):
-                empty = True
-            ctx.check(R, "find_bn254_specific_circuits/arm:Bn254/empty", empty, "the BN254 arm must produce no reports; body: " + txt[:200], site(BN, a))
+            ctx.check(R, "find_bn254_specific_circuits/arm:Bn254/empty", early_empty and not consts and not reach_visitor or (not consts and early_empty and not reach_visitor), "under BN254 the pass must return an empty collection before visiting anything (constants used: %s, visitor reached: %s)" % (sorted(consts), reach_visitor), site_)
             continue
-        # HashSet::from(CONST) | CONST.iter().collect() | HashSet::from_iter(CONST)
-        names = None
-        for n in walk(a["body"]):
-            if n["k"] == "Path" and re.fullmatch(r"[A-Z][A-Z0-9_]+", n["path"]):
-                arr = const_array(BN, n["path"])
-                if arr is not None:
-                    names = arr
-                    cname = n["path"]
-        if names is None:
-            ctx.missing(R, "table-constant:" + curve, "arm body: " + render(body)[:200])
+        if len(consts) != 1:
+            ctx.missing(R, "table-constant:" + curve, "constants used on the %s paths: %s" % (curve, sorted(consts)))
             continue
-        src_tables[curve] = names
+        cname = sorted(consts)[0]
+        names = const_array(BN, cname)
         want = doc_table[curve]
         got = set(names)
         ctx.table("source:" + curve, sorted(names))
@@ -160,9 +189,10 @@ def rule_table(ctx):
                 "table/%s/%s" % (curve, name),
                 (name in want) == (name in got),
                 "%s: documented=%s in %s=%s" % (name, name in want, cname, name in got),
-                site(BN, a),
+                site_,
             )
         ctx.check(R, "table/%s/no-duplicates" % curve, len(names) == len(got), "duplicate rows in %s" % cname)
+    ctx.floor(R, "paths through the pass", n_paths, 3)
     # membership test: every push of a report is guarded by `<set>.contains(<name of the Call>)`
     vs = find_fn(BN, "visit_statement")
     if vs is None:
@@ -213,15 +243,14 @@ def rule_table(ctx):
         )]
         ctx.check(R, "visit_statement/push/no-further-suppression", not extra, "additional conditions on the report: %s" % extra, site(BN, p))
     # every statement of every block is visited
-    loops = [n for n in walk(fn["body"]) if n["k"] == "For"]
-    visited = any("visit_statement" in render(l["body"]) for l in loops)
-    outer = [l for l in loops if re.sub(r"\s", "", render(l["iter"])) in ("cfg.iter()", "cfg")]
-    inner = [l for l in loops if re.search(r"\.iter\(\)$", render(l["iter"])) and l not in outer]
-    ctx.check(R, "find_bn254_specific_circuits/visits-all-statements", visited and outer and inner, "expected `for bb in cfg.iter() { for stmt in bb.iter() { visit_statement(..) } }`")
-    for l in outer + inner:
-        cs = conditions_to(fn["body"], l)
-        ex = [fact_str(c) for c in cs if c[0] != "loop" and not (c[0] == "arm") and not (c[0] == "notall" and len(c[1]) == 1 and c[1][0][0] == "arm" and curve_variant(c[1][0][2]) == ["Bn254"])]
-        ctx.check(R, "find_bn254_specific_circuits/loop-unconditional", not ex, "loop guarded by %s" % ex, site(BN, l))
+    import sgrep as _sg
+
+    okt, how = _sg.visits_all_statements(fn, "visit_statement")
+    ctx.check(R, "find_bn254_specific_circuits/visits-all-statements", okt, how)
+    for v_ in [c for c in walk(fn["body"]) if c["k"] == "Call" and c["func"]["k"] == "Path" and last(c["func"]["path"]) == "visit_statement"]:
+        cs = conditions_to(fn["body"], v_) or []
+        ex = [fact_str(c) for c in cs if c[0] not in ("loop", "closure") and "curve" not in fact_str(c).lower()]
+        ctx.check(R, "find_bn254_specific_circuits/loop-unconditional", not ex, "statements are visited only under %s" % ex, site(BN, v_))
 
 
 def rule_primes(ctx):
